@@ -41,6 +41,9 @@ class Prop(BaseProp):
             case["thr"] = thr
             case["thr_class"] = cls
             case["thr2"] = min(1.0, thr + rng.choice([0.0, 1.0 / (N - 1), 0.3, rng.random()]))
+            # the same numbers in the forms users pass them (python int for 0 / 1, numpy scalar, 0-d array)
+            case["thr_u"] = common.as_user_number(rng, float(thr))
+            case["thr2_u"] = common.as_user_number(rng, float(case["thr2"]))
             yield case
 
     def check(self, case, ctx):
@@ -79,12 +82,12 @@ class Prop(BaseProp):
             # the caller's own objects - possibly the same object listed twice - reach the per-spike scan)
             kw["Reconcile"] = False
             ctx.count("reconcile_off")
-        res = ctx.call(ps.filter_by_spike_sync, sts, thr, return_removed_spikes=True, **kw)
+        res = ctx.call(ps.filter_by_spike_sync, sts, case.get("thr_u", thr), return_removed_spikes=True, **kw)
         if not ctx.expect(isinstance(res, (list, tuple)) and len(res) == 2 and len(res[0]) == N and len(res[1]) == N, "filter:shape",
                           "filter(return_removed_spikes=True) returned %s" % common.short(res)):
             return
         kept, removed = res
-        only = ctx.call(ps.filter_by_spike_sync, sts, thr, **kw)
+        only = ctx.call(ps.filter_by_spike_sync, sts, case.get("thr_u", thr), **kw)
         d = common.result_equal(ps, list(only), list(kept), 0)
         ctx.expect(d is None, "filter:kept-differs-without-removed-flag", "kept trains differ between return_removed_spikes False/True: %s" % d)
         Fthr = F(thr)
@@ -103,6 +106,15 @@ class Prop(BaseProp):
                 fl2 = c[n][q] / (N - 1) > thr
                 if F(c[n][q], N - 1) == Fthr:
                     ctx.count("spike_value_equals_threshold")
+                # the statement compares "the value the multivariate profile shows" (the double c/(N-1)) with the
+                # threshold: when both correctly rounded double forms agree they decide - also where the double nearest
+                # to k/(N-1) lies on the other side of the rational k/(N-1); only their disagreement is left unjudged
+                if fl1 == fl2 and not amb[n][q]:
+                    if fl1 != exact:
+                        ctx.count("decided_by_double_forms_not_rational")
+                    if fl2:
+                        want.append(t)
+                    continue
                 if amb[n][q] or not (exact == fl1 == fl2):
                     ctx.count("ambiguous_not_judged")
                     if t in ks:
@@ -130,7 +142,7 @@ class Prop(BaseProp):
                                    "spike %r of train %d: multivariate profile value %r, threshold %r, kept=%r" % (t, n, val, thr, t in common.tl(kept[n].spikes)))
         # ---- a higher threshold never keeps more
         ctx.count("monotone_checked")
-        k2 = ctx.call(ps.filter_by_spike_sync, sts, case["thr2"], **kw)
+        k2 = ctx.call(ps.filter_by_spike_sync, sts, case.get("thr2_u", case["thr2"]), **kw)
         for n in range(N):
             ctx.expect(set(common.tl(k2[n].spikes)) <= set(common.tl(kept[n].spikes)), "filter:not-monotone",
                        "train %d: threshold %r keeps %s but the lower threshold %r keeps %s" % (n, case["thr2"], common.short(common.tl(k2[n].spikes)), thr, common.short(common.tl(kept[n].spikes))))
